@@ -38,6 +38,7 @@ def run(chk: Check) -> None:
 
     run_request_dict(chk, ix, serve, loop)
     run_stop_state(chk, ix, serve, loop)
+    run_client_paths(chk, ix)
 
     # ------------- R16.1
     r1 = chk.rule("R16.1", "every exception class that connection I/O or frame decoding may raise inside the serve loop is caught inside the loop by a handler that neither re-raises nor leaves the loop (intended exits identified structurally)", floor=4)
@@ -440,3 +441,38 @@ def is_in_finally(func: ast.AST, stmt: ast.AST) -> bool:
                 if any(x is stmt for x in ast.walk(s)):
                     return True
     return False
+
+
+def run_client_paths(chk: Check, ix) -> None:
+    """R16.7: a path supplied by the client cannot take the daemon down."""
+    r7 = chk.rule("R16.7", "exceptions that leave a command handler reach serve()'s crash-report-and-reraise and end the daemon; a handler (Server.cmd_*) that opens a file named by one of its own parameters (a path the client chose) therefore does so inside try/except OSError and answers with an error response: a typo in `dmypy status --fswatcher-dump-file <path>` must not end the daemon", floor=1)
+    srv = ix.cls("mypy.dmypy_server.Server")
+    n = 0
+    for mn, f in sorted(srv.methods.items()):
+        if not mn.startswith("cmd_"):
+            continue
+        params = {a.arg for a in f.node.args.args[1:] + f.node.args.kwonlyargs}
+        par = f.module.parents()
+        for c in ast.walk(f.node):
+            if not (isinstance(c, ast.Call) and isinstance(c.func, ast.Name) and c.func.id == "open" and c.args):
+                continue
+            if not any(isinstance(x, ast.Name) and x.id in params for x in ast.walk(c.args[0])):
+                continue
+            n += 1
+            key = f"Server.{mn}: open({norm(c.args[0])}, ...) on a client-supplied path is inside try/except OSError"
+            cur = c
+            guarded = False
+            while cur is not None and cur is not f.node:
+                p = par.get(cur)
+                if isinstance(p, ast.Try) and any(cur is x for x in p.body):
+                    for h in p.handlers:
+                        ts = [h.type] if h.type is not None and not isinstance(h.type, ast.Tuple) else (h.type.elts if h.type is not None else [None])
+                        if any(t is None or norm(t) in ("OSError", "Exception", "IOError", "EnvironmentError") for t in ts) and not any(isinstance(x, ast.Raise) for x in ast.walk(h)):
+                            guarded = True
+                cur = p
+            if guarded:
+                r7.ok(key, f.loc(c))
+            else:
+                r7.violation(key, f.loc(c), "an OSError from this open() (missing directory, no permission) leaves the handler, is reported as `Daemon crashed!` and re-raised: the daemon exits because of a bad path in an otherwise well-formed request")
+    if n < 1:
+        raise AnalysisError("no command handler opens a client-supplied path any more (rule has nothing to check)")
